@@ -109,7 +109,10 @@ CLAIMED = {
         'quarter-integer grids over all small shapes and on adversarial huge shapes (2^31 boundary), coverage over Sampling '
         'fields of different broadcastable shapes (model of NumPy broadcasting: coverage_of_broadcast_sampling). Partial: '
         'jax_healpy.ang2pix vs healpy is a numerical cross-check (both x64 modes, float32/float64 landscapes, nside up to '
-        '8192 / 2^20, index corners, longitudes one ulp below 0; a mismatch is reported as VIOLATION), not a theorem.',
+        '8192 / 2^20, index corners, longitudes one ulp below 0; a mismatch is reported as VIOLATION), not a theorem. Resolutions that are not '
+        'powers of two are included: there world2index disagrees with healpy in the equatorial belt (jax_healpy masks the in-ring index instead '
+        'of reducing it modulo 4 nside) - recorded as the known finding healpix-nside-not-power-of-two-equatorial-belt (KNOWN-FINDING line, exit 0; '
+        'any mismatch without exactly that signature is still a VIOLATION).',
         'Trusts Gallina specs of jnp.round, astype saturation, int32/int64 wrap, unique/scatter-add (compared with JAX), '
         'coordinates as exact rationals, jax_healpy.ang2pix not modelled (healpy clause partial), the harness, Coq kernel.',
         'DESIGN.md section 4, C17',
